@@ -382,6 +382,13 @@ def check_locking(model, rep, m, R='C20.locking'):
             ok, why = False, f'the scan can exit with {p.exit}'
         for x in stores:
             g = guards_at(x, p.guards)
+            from sa.sx import Bsym as _Bsym, implies as _implies
+            if isinstance(x[3], _Bsym) and _implies(list(g), x[3].guard):
+                x = x[:3] + (Bv(True),) + x[4:]          # a truth value that is true under the guards of this very path
+            elif (isinstance(x[3], _Bsym) and x[3].guard.kind == 'truth' and str(x[3].guard.key[0]).split('#')[0] in (
+                    'self.self_locking', 'self.' + ffield, f'carry:{ffield}')) or (
+                    ffield.split('__')[-1] in sx.show(x[3]) and ('carry' in sx.show(x[3]) or sx.show(x[3]).startswith('self.'))):
+                continue                                  # `flag = <...> or flag` on the path where the flag keeps its own value
             if not (isinstance(x[3], Bv) and x[3].b is True):
                 ok, why = False, (f'the scan assigns `{sx.show(x[3])[:60]}` to the flag (the last element scanned would decide); only '
                                   f'True may be assigned')
@@ -427,6 +434,21 @@ def check_frozen(model, rep):
                         and not any(isinstance(x, (ast.GeneratorExp, ast.ListComp, ast.Lambda)) for x in ast.walk(body[0].value)):
                     trivial = True
                     field = own[0].attr
+                # one field of an immutable record kept in a private field (`self.__layout.elements`, the record a NamedTuple defined in
+                # the module): frozen when the private field is
+                v = body[0].value
+                if not trivial and isinstance(v, ast.Attribute) and isinstance(v.value, ast.Attribute) and isinstance(v.value.value, ast.Name) \
+                        and v.value.value.id == 'self' and v.value.attr.startswith('__') and not v.value.attr.endswith('__'):
+                    tree = model.trees.get(g.module)
+                    records = {c.name for c in ast.walk(tree) if isinstance(c, ast.ClassDef)
+                               and any(ast.unparse(b).split('.')[-1] == 'NamedTuple' for b in c.bases)} if tree is not None else set()
+                    init = model.find_member('Powertrain', '__init__')
+                    built = [a.value for a in ast.walk(init.node) if isinstance(a, ast.Assign)
+                             and any(isinstance(t, ast.Attribute) and t.attr == v.value.attr for t in a.targets)] if init else []
+                    if built and all(isinstance(b, ast.Call) and ((isinstance(b.func, ast.Name) and b.func.id in records) or (
+                            isinstance(b.func, ast.Attribute) and b.func.attr == '_replace')) for b in built):
+                        trivial = True
+                        field = v.value.attr
             rep.decide(trivial, 'C20.frozen', f'Powertrain.{prop}[getter]',
                        f'the getter computes `{ast.unparse(body[0])[:80] if body else None}` instead of returning the value frozen at '
                        f'assembly', loc=g.loc)
